@@ -64,6 +64,10 @@ def poly_case(name, k, outty, spec, rule, intypes, nocancel=False, base=None, si
                 res.append(R.ob(oid, rule, R.UNDECIDED, 'no normal form: %r' % e, kernel=k.source()))
                 continue
             st, detail = L.compare_poly(got, exp)
+            nw = L.narrowing(t, outty.elem * 8) if outty.isfloat else None
+            if nw is not None:
+                res.append(R.ob(oid, rule, R.REFUTED, 'the %d-bit result passes through a %d-bit float (%s): float accuracy only, whatever the formula' % (outty.elem * 8, nw.w, tm.show(nw, 3)), where=R.where_of(it, nw), kernel=k.source()))
+                continue
             if st == R.PROVED and nocancel and outty.isfloat:
                 a = ac.fpoly(t)
                 if a != L.abs_poly(got):
